@@ -22,10 +22,12 @@ from harness.common import enc, Z, B, kids, tag, to_zs, is_err, err_code
 from harness import c14_syntax
 
 PROP = 'C14'
-GENERATORS = ['gen_datamut', 'gen_parse']
+GENERATORS = ['gen_datamut', 'gen_parse', 'gen_linkcompute']
 TRUSTED = [
-    'hand model coq/C14/Model.v of BinaryComponentLink.compute, ComponentLink.compute, ParsedCommand.evaluate and update_id (with the two '
-    'fix commits): tied by correspondence only',
+    'hand model coq/C14/Model.v of BinaryComponentLink.compute, ParsedCommand.evaluate and update_id (with the two fix commits): tied by '
+    'correspondence only; ComponentLink.compute is regenerated from component_link.py (tools/gen/gen_linkcompute.py) over opaque array '
+    'operations and proved equal to the model (coq/C14/LinkEquiv.v); a stored array is its logical value list: independence from the '
+    'memory layout (C / Fortran / transposed / negative stride / non-contiguous / stride 0) is tested, not proved',
     'the removal cascade (Data.remove_component + _removed_derived_that_depend_on) is regenerated from data.py by tools/gen/gen_datamut.py '
     '(coq/gen/Gen_datamut.v) and proved equal to the model (coq/C14/GenEquiv.v); trusted there: the translator, its prelude, the instance '
     'env14 (link.get_from_ids() = leaves of the defining expression); the generated update_id / reorder_components run against the code only',
@@ -124,6 +126,33 @@ def result_dtype(op, da, db, bvals):
     return dt, ok
 
 
+LAYOUTS = ['C', 'F', 'T', 'neg', 'slice', 'negF']
+
+
+def with_layout(full, layout):
+    """the same logical array held in memory in another way (glue keeps a stored array as it is given)"""
+    if layout == 'F':
+        out = np.asfortranarray(full)                          # Fortran order, owns its data
+    elif layout == 'T':
+        out = np.ascontiguousarray(full.T).T                   # transposed view of a C-ordered array
+    elif layout == 'neg':
+        out = np.ascontiguousarray(full[::-1])[::-1]           # negative stride on the first axis
+    elif layout == 'slice':
+        big = np.zeros(full.shape[:-1] + (2 * full.shape[-1] + 1,), dtype=full.dtype)
+        big[..., 1::2] = full
+        out = big[..., 1::2]                                   # every second element of a wider buffer: not contiguous
+    elif layout == 'negF':
+        out = np.asfortranarray(full[..., ::-1])[..., ::-1]    # Fortran order with a negative stride on the last axis
+    else:
+        out = full
+    assert out.shape == full.shape and np.array_equal(out, full, equal_nan=True)
+    return out
+
+
+def layouts_of(spec):
+    return '+'.join(sorted(set((st[3] if len(st) > 3 and not any(st[0]) else ('stride0' if any(st[0]) else 'C')) for st in spec['stored'])))
+
+
 def leaves(t):
     if t[0] == 'cid':
         return [t[1]]
@@ -197,6 +226,8 @@ class World(object):
             else:
                 arr = np.array([int(x) for x in small], dtype=dts).reshape(small_shape)
             full = np.broadcast_to(arr, shape) if any(flags) else arr.copy()
+            if len(st) > 3 and not any(flags):
+                full = with_layout(full, st[3])
             lab = self.fresh_label()
             self.d.add_component(Component(full), lab)
             self.register_new()
@@ -833,7 +864,8 @@ def evaluate(R, cases, stream, done=None):
         nq = sum(1 for op in case['ops'] if op[0] == 'query')
         ncmp = sum(r.get('compared', 0) for r in res)
         maxd = max([depth(op[2]) for op in case['ops'] if op[0] in ('add', 'addto')] + [depth(op[3]) for op in case['ops'] if op[0] == 'redef'] + [0])
-        R.count(repr((case['spec'], case['ops'])), nontrivial=ncmp > 0 or any(op[0] in ('remove', 'redef', 'reorder', 'updid', 'alias', 'addto') for op in case['ops']), stream=stream, depth=maxd, ndim=len(case['spec']['shape']))
+        R.count(repr((case['spec'], case['ops'])), nontrivial=ncmp > 0 or any(op[0] in ('remove', 'redef', 'reorder', 'updid', 'alias', 'addto') for op in case['ops']), stream=stream, depth=maxd, ndim=len(case['spec']['shape']),
+                layout=layouts_of(case['spec']))
         for op in case['ops']:
             R.hist['op_kind'][op[0]] += 1
             if op[0] in ('add', 'redef'):
@@ -1055,7 +1087,10 @@ def make_spec(rng, shape, coords, nstored=3):
             vals = [Fraction(rng.choice([0, 1, 2, 3, -1])) for _ in range(small_n)]     # integer valued: usable as exponent
         else:
             vals = [rng.choice(VALUES) for _ in range(small_n)]
-        stored.append((flags, vals))
+        if not any(flags) and rng.random() < 0.5:
+            stored.append((flags, vals, 'float64', rng.choice(LAYOUTS[1:])))     # memory layout is an input dimension of its own
+        else:
+            stored.append((flags, vals))
     return {'shape': list(shape), 'coords': coords, 'stored': stored}
 
 
@@ -1500,6 +1535,51 @@ def stream_dtypes(R):
                    'dtype numpy resolves for the way the unchanged code evaluates that kind of definition' % ', '.join(DTYPES))
 
 
+def stream_layout(R):
+    """memory layout of the stored arrays: every pair of layouts for the two inputs of a link, 2-d and 3-d, all three kinds of definition,
+    nested user functions, pixel inputs, every kind of basic view"""
+    fc = lambda q: ('const', Fraction(q))
+    cases = []
+    for shape in ([2, 3], [2, 3, 2]):
+        nd = len(shape)
+        n = int(np.prod(shape))
+        va = [Fraction(k + 1) for k in range(n)]
+        vb = [Fraction((k * k) % 7, 2) for k in range(n)]
+        flags = tuple(False for _ in shape)
+        bflags = tuple(k == 0 for k in range(nd))
+        vc = [Fraction(k - 1) for k in range(n // shape[0])]
+        views = [None, tuple(slice(None, None, -1) for _ in shape), (slice(1, None),) + tuple(slice(None) for _ in shape[1:]),
+                 (0,), tuple(slice(None) for _ in shape[:-1]) + (shape[-1] - 1,), (slice(None), slice(None, None, 2))]
+        for la in LAYOUTS:
+            for lb in LAYOUTS:
+                spec = {'shape': shape, 'coords': None,
+                        'stored': [(flags, va, 'float64', la), (flags, vb, 'float64', lb), (bflags, vc)]}
+                a, b, c, pix = ('cid', nd), ('cid', nd + 1), ('cid', nd + 2), ('cid', nd - 1)
+                new = nd + 3
+                trees = [('bin', '+', a, ('bin', '*', b, fc(100))), ('bin', '-', ('bin', '*', a, pix), ('bin', '/', b, fc(2))),
+                         ('bin', '+', ('bin', '*', c, b), a)]
+                for ti, t in enumerate(trees):
+                    for how in (0, 1, 2):
+                        q = [['query', new, None if v is None else view_key(v)] for v in views]
+                        cases.append({'spec': spec, 'ops': [['add', how, t]] + q})
+                # a user function over a user function over the two layouts
+                for how2 in (2, 0, 1):
+                    ops = [['add', 2, ('bin', '*', a, fc(3))], ['add', how2, ('bin', '-', ('cid', new), b)]]
+                    ops += [['query', new + 1, None if v is None else view_key(v)] for v in views[:4]]
+                    cases.append({'spec': spec, 'ops': ops})
+    fl = []
+    for i in range(0, len(cases), 400):
+        fl += evaluate(R, cases[i:i + 400], 'layout')
+    report(R, fl)
+    R.sample({'stream': 'layout', 'case': jsonable_case(cases[40])})
+    R.stream('layout', cases=len(cases), exhaustive=True,
+             bound='stored arrays held in memory as %s (same logical values): every ordered pair of layouts for the two inputs of a link, next to '
+                   'a stride-0 (broadcast) input and a pixel attribute, on 2 x 3 and 2 x 3 x 2 datasets; defined by operators / parsed text / user '
+                   'function, and a user function nested in each of the three; read whole and through reversed, sliced, integer and strided '
+                   'views; in the model a stored array is its logical row-major value list, so a dependence on the layout is a disagreement'
+                   % ', '.join(LAYOUTS))
+
+
 def consts_of(t):
     if t[0] == 'const':
         return [t]
@@ -1569,6 +1649,7 @@ def run(R):
     R.rule = ('a case is a dataset (shape, coordinates, stored arrays with a chosen broadcast structure) plus a history of add-derived / remove / '
               'update_id / read steps; non-trivial when at least one element was compared exactly; distinct = distinct (dataset, history)')
     stream_closure(R)
+    stream_layout(R)
     stream_dtypes(R)
     stream_exhaustive(R)
     stream_random(R)
